@@ -216,7 +216,9 @@ func c20Forms() []formCase {
 	bind0 := map[string]string{"new-iface": "new(I)", "nil-conversion": "(*I)(nil)", "new-struct": "new(A)", "nil": "nil", "iface-nil": "I(nil)", "var": "IfacePtr",
 		"new-embedding-iface": "new(I2)", "new-empty-iface": "new(interface{})", "paren": "(new(I))", "new-ptr-iface": "new(*I)", "string": `"I"`}
 	bind1 := map[string]string{"new-struct": "new(A)", "addr-composite": "&A{}", "value": "VarA", "nil": "nil", "new-ptr": "new(*A)", "var": "PtrA",
-		"nil-conversion": "(*A)(nil)", "new-iface": "new(I)", "new-other": "new(N)", "paren": "(new(A))", "string": `"A"`}
+		"nil-conversion": "(*A)(nil)", "new-iface": "new(I)", "new-other": "new(N)", "paren": "(new(A))", "string": `"A"`,
+		"new-unrelated-iface": "new(interface{ Other() })", "new-empty-iface": "new(interface{})", "new-wider-iface": "new(interface{ M(); Extra() })",
+		"new-error": "new(error)", "new-func-type": "new(func())", "new-chan": "new(chan int)", "new-unnamed-struct": "new(struct{ A })", "new-ptr-to-iface": "new(*I)"}
 	for _, k0 := range sortedStrKeys(bind0) {
 		for _, k1 := range sortedStrKeys(bind1) {
 			if k0 != "new-iface" && k1 != "new-struct" {
